@@ -246,6 +246,28 @@ impl HsWorld {
                 return Err(Violation::new("C10/lookup-user-data-mismatch", format!("user_data({}) tag {:?}, session reported tag {}", id, ud.map(|u| u[0]), s.user_data_tag)));
             }
         }
+        // ... and ids without an authenticated session resolve to nothing (every id a token of this world names, plus a stranger)
+        let mut others: Vec<u64> = self.fx.toks.iter().map(|t| t.spec.client_id).collect();
+        others.push(0xdead_beef);
+        for id in others {
+            if self.connected.contains_key(&id) {
+                continue;
+            }
+            let hit = if self.server.client_addr(id).is_some() {
+                Some("client_addr")
+            } else if self.server.user_data(id).is_some() {
+                Some("user_data")
+            } else if self.server.is_client_connected(id) {
+                Some("is_client_connected")
+            } else if self.server.time_since_last_received_packet(id).is_some() {
+                Some("time_since_last_received_packet")
+            } else {
+                None
+            };
+            if let Some(h) = hit {
+                return Err(Violation::new("C10/lookup-finds-a-session-for-an-unconnected-id", format!("{}({}) answers although no session is reported connected for that id (connected: {:?})", h, id, mon)));
+            }
+        }
         Ok(())
     }
 
